@@ -134,6 +134,20 @@ def run(ctx):
     for x in list(st_only[:60]):
         st_only.append(x + rng.choice(EPB_TAILS))
         st_only.append(x[: rng.below(len(x) + 1)] + b"\x00\x00\x03")
+    # structured ST 2094-10 payloads (CM data with all loops, DM data with a CM v2.9 container), EXTREME codes,
+    # single-bit mutations, both start-byte forms, escaped
+    for i in range(800 if ctx.tier == "quick" else 20000):
+        specgen.EXTREME = 0.02 if i % 4 == 0 else 0.0
+        try:
+            b = specgen.gen_st2094(rng.fork("st%d" % i))
+        finally:
+            specgen.EXTREME = 0.0
+        if rng.chance(1, 3):
+            b = bytes([0x4E, 0x01, 0x04, rng.below(256)]) + b
+        if rng.chance(1, 5) and len(b) > 10:
+            k = rng.below(len(b))
+            b = b[:k] + bytes([b[k] ^ (1 << rng.below(8))]) + b[k + 1:]
+        st_only.append(specgen.escape(b))
     st_lines = ["c08.st2094 " + hx(b) for b in st_only]
     # RPU files
     file_lines = []
@@ -153,6 +167,10 @@ def run(ctx):
             blob = rng.bytes(rng.below(200))
         file_lines.append(rng.choice(["c08.file ", "c08.capifile "]) + hx(blob))
     # --- model vs implementation on the modelled entry points -----------------------------------
+    # (ST 2094-10 and the RPU file reader are modelled too: Model/St2094.lean, Model/RpuFile.lean)
+    lines = lines + st_lines + file_lines
+    kinds = kinds + ["st2094"] * len(st_lines) + ["file"] * len(file_lines)
+    st_lines, file_lines = [], []
     ctx.evaluations += len(lines)
     mo, _, _ = common.run_lines_sharded(common.MODEL_EXE, lines)
     io_ = common.run_lines_resilient_sharded(common.LIBCASE, lines, env=ENV)
@@ -187,12 +205,11 @@ def run(ctx):
             if r and r[0].startswith("panic:"):
                 o = "abort-in-extern-C-of-" + r[0]
         if l.startswith(("c08.st", "c08.file", "c08.capifile")):
-            ctx.count("class=" + c.split(":")[0])
             ctx.nontriv(l)
         if not (c == "ok" or c == "err" or c.startswith("ok:")):
             ctx.oracle_fail({"op": l.split(" ")[0] + (" " + l.split(" ")[1] if l.startswith("c08.capi ") else ""),
                              "input": l.split(" ")[-1][:6000], "observed": o, "expected": "ok | err",
                              "site": o.split(":", 1)[1] if ":" in o else o})
     ctx.sample(lines[0][:300])
-    ctx.sample(st_lines[0])
-    ctx.sample(file_lines[0][:300])
+    for pre in ("c08.st2094", "c08.file"):
+        ctx.sample(next((l[:300] for l in lines if l.startswith(pre)), pre))
